@@ -1372,6 +1372,15 @@ class CompositeEnvelope:
             States onto which the operator should be applied
         """
 
+        # Check the uniqueness and the membership of the states
+        if len(states) != len(list(set(states))):
+            raise ValueError("State list should contain unique elements")
+        for s in states:
+            if not any(s is so for so in self.state_objs):
+                raise ValueError(
+                    "Given states have to be members of the composite envelope"
+                )
+
         if len(states) == 1:
             if not isinstance(states[0].index, tuple):
                 assert hasattr(states[0], "apply_operation")
